@@ -258,6 +258,15 @@ def g_value(rng, allow_empty=True) -> bytes:
     r = rng.random()
     if r < 0.1 and allow_empty:
         return b""
+    if r < 0.1025:
+        # long values (certificates, photos, SIDs): plain, all-escaped, and mixed, around the sizes scanners block at
+        n = rng.choice([500, 683, 1024, 2047, 2048, 2049, 2500])
+        kind = rng.random()
+        if kind < 0.4:
+            return bytes([rng.choice(b"abcdefghij0123456789")]) * n
+        if kind < 0.7:
+            return bytes(rng.choice([0x30, 0x82, 0x00, 0xFF, 0x2A, 0x28, 0x5C]) for _ in range(n))
+        return bytes(rng.getrandbits(8) for _ in range(n))
     if r < 0.5:
         return bytes(rng.choice(b"abcXYZ019 _-=:;,.<>~!&|") for _ in range(rng.randint(1, 8)))
     if r < 0.75:
